@@ -1,4 +1,141 @@
-import WireV.Front
 import WireV.Path
+import WireP.Lemmas.PathProofs
+import WireP.Lemmas.PathProofsSort
+/-! # C16 — vendor stripping and the sorted import block
+
+Model: `WireV.unvendorC` / `WireV.unvendor` / `WireV.isWireImport` (wire.go: unvendor, isWireImport;
+`strings.LastIndex` is `WireV.lastIndex`), `WireV.sortS` (`sort.Strings`) and `WireV.frameImports`
+(the import block printed by `frame`, iterating over the map `g.imports`). -/
 namespace WireP.C16
+open WireV
+open WireP.PathProofs (NoVendorElem)
+
+/-- no `vendor` path element: neither `…/vendor/…` nor a leading `vendor/` -/
+theorem noVendorElem_def (p : List Char) :
+    NoVendorElem p ↔ lastIndex vendorElem p = none ∧ isPrefixC "vendor/".toList p = false := Iff.rfl
+
+/-! ## `strings.HasPrefix`, `strings.LastIndex` as modelled -/
+
+theorem isPrefixC_iff (n h : List Char) : isPrefixC n h = true ↔ ∃ t, h = n ++ t :=
+  WireP.PathProofs.isPrefixC_iff n h
+
+/-- `lastIndex n h = some i`: `n` occurs at `i` and at no later position -/
+theorem lastIndex_some_iff {n : List Char} (hn : n ≠ []) {h : List Char} {i : Nat} :
+    lastIndex n h = some i ↔
+      isPrefixC n (h.drop i) = true ∧ ∀ j, i < j → isPrefixC n (h.drop j) = false :=
+  WireP.PathProofs.lastIndex_some_iff hn
+
+theorem lastIndex_none_iff {n : List Char} (hn : n ≠ []) (h : List Char) :
+    lastIndex n h = none ↔ ∀ j, isPrefixC n (h.drop j) = false :=
+  WireP.PathProofs.lastIndex_none_iff hn h
+
+/-! ## `unvendor` -/
+
+/-- a path without vendor element is left alone -/
+theorem unvendor_id {p : List Char} : NoVendorElem p → unvendorC p = p :=
+  WireP.PathProofs.unvendor_id
+
+/-- **Canonical form.**  Wherever a package is vendored (any prefix `q`, which may itself contain
+    vendor elements), its import path is read back. -/
+theorem unvendor_canonical {p : List Char} (h : NoVendorElem p) (q : List Char) :
+    unvendorC (q ++ vendorElem ++ p) = p ∧ unvendorC ("vendor/".toList ++ p) = p :=
+  WireP.PathProofs.unvendor_canonical h q
+
+/-- the same on strings -/
+theorem unvendor_canonical_string {p : String} (h : NoVendorElem p.toList) (q : String) :
+    unvendor (q ++ "/vendor/" ++ p) = p ∧ unvendor ("vendor/" ++ p) = p :=
+  WireP.PathProofs.unvendor_canonical_string h q
+
+/-- the result never contains a vendor element … -/
+theorem unvendor_noVendor (p : List Char) : NoVendorElem (unvendorC p) :=
+  WireP.PathProofs.unvendor_noVendor p
+
+/-- … hence stripping is idempotent -/
+theorem unvendor_idem (p : List Char) : unvendorC (unvendorC p) = unvendorC p :=
+  WireP.PathProofs.unvendor_idem p
+
+theorem unvendor_idem_string (p : String) : unvendor (unvendor p) = unvendor p :=
+  WireP.PathProofs.unvendor_idem_string p
+
+/-- the result is a suffix of the input -/
+theorem unvendor_suffix (p : List Char) : ∃ q, p = q ++ unvendorC p :=
+  WireP.PathProofs.unvendor_suffix p
+
+/-- defect D13 (fixed in the source): a path element that merely *ends* in `vendor` is not a vendor
+    directory -/
+theorem unvendor_govendor :
+    unvendor "example.com/app/vendor/github.com/a/govendor/lib" = "github.com/a/govendor/lib" :=
+  WireP.PathProofs.unvendor_lit rfl rfl (by decide)
+
+theorem isWireImport_spec (p : String) :
+    isWireImport p = true ↔ unvendor p = "github.com/google/wire" :=
+  WireP.PathProofs.isWireImport_spec p
+
+/-- a vendored copy of wire (also below a nested vendor directory, also `vendor/` at the front) is recognised;
+    a package whose path merely ends like wire's is not -/
+theorem isWireImport_vendored :
+    isWireImport "github.com/google/wire" = true ∧
+    isWireImport "example.com/app/vendor/github.com/google/wire" = true ∧
+    isWireImport "example.com/app/vendor/b.org/lib/vendor/github.com/google/wire" = true ∧
+    isWireImport "vendor/github.com/google/wire" = true ∧
+    isWireImport "example.com/govendor/github.com/google/wire" = false ∧
+    isWireImport "example.com/app/vendor/github.com/google/wire/sub" = false :=
+  ⟨WireP.PathProofs.isWireImport_lit rfl rfl (by decide), WireP.PathProofs.isWireImport_lit rfl rfl (by decide),
+   WireP.PathProofs.isWireImport_lit rfl rfl (by decide), WireP.PathProofs.isWireImport_lit rfl rfl (by decide),
+   WireP.PathProofs.isWireImport_lit rfl rfl (by decide), WireP.PathProofs.isWireImport_lit rfl rfl (by decide)⟩
+
+/-! ## the import block -/
+
+theorem sortS_sorted (l : List String) : (sortS l).Pairwise (· ≤ ·) :=
+  WireP.PathProofs.sortS_sorted l
+
+theorem sortS_perm (l : List String) : (sortS l).Perm l :=
+  WireP.PathProofs.sortS_perm l
+
+theorem sortS_eq_of_perm {l l' : List String} : l.Perm l' → sortS l = sortS l' :=
+  WireP.PathProofs.sortS_eq_of_perm
+
+/-- **The import block does not depend on the iteration order of the import map.** -/
+theorem frame_perm {imps imps' : List ImportEnt} :
+    imps.Perm imps' → (imps.map (·.path)).Nodup → frameImports imps = frameImports imps' :=
+  WireP.PathProofs.frame_perm
+
+theorem frameImports_length (imps : List ImportEnt) : (frameImports imps).length = imps.length :=
+  WireP.PathProofs.frameImports_length imps
+
+/-- line `i` of the block is the line of the `i`-th smallest path (never the `""` fallback) -/
+theorem frameImports_get {imps : List ImportEnt} (hnd : (imps.map (·.path)).Nodup) {i : Nat} {p : String} :
+    (sortS (imps.map (·.path)))[i]? = some p →
+    ∃ e ∈ imps, e.path = p ∧
+      (frameImports imps)[i]? = some (if e.differs then s!"{e.name} \"{p}\"" else s!"\"{p}\"") :=
+  WireP.PathProofs.frameImports_get hnd
+
+/-! ## non-vacuity -/
+
+open WireP.PathProofs in
+section
+-- (`…_lit rfl rfl (by decide)`: `decide` on the character lists of the literals, see `WireP.PathProofs`)
+example : NoVendorElem "github.com/google/wire".toList := noVendorElem_lit rfl (by decide)
+example : NoVendorElem "example.com/govendor/vendors/x".toList := noVendorElem_lit rfl (by decide)
+example : ¬ NoVendorElem "a/vendor/b".toList := not_noVendorElem_lit rfl (by decide)
+example : ¬ NoVendorElem "vendor/b".toList := not_noVendorElem_lit rfl (by decide)
+example : lastIndex "/vendor/".toList "a/vendor/b/vendor/c".toList = some 10 := lastIndex_lit rfl rfl (by decide)
+example : unvendor "a/vendor/b/vendor/c" = "c" := unvendor_lit rfl rfl (by decide)
+example : unvendor "vendor/c" = "c" := unvendor_lit rfl rfl (by decide)
+example : unvendor "a/vendor/vendor/c" = "c" := unvendor_lit rfl rfl (by decide)
+example : unvendor "vendor/vendor/c" = "c" := unvendor_lit rfl rfl (by decide)
+example : unvendor "xvendor/c" = "xvendor/c" := unvendor_lit rfl rfl (by decide)
+end
+
+def exImps : List ImportEnt :=
+  [⟨"net/http", "http", false⟩, ⟨"example.com/b", "b2", true⟩, ⟨"context", "context", false⟩]
+def exImps' : List ImportEnt :=
+  [⟨"context", "context", false⟩, ⟨"net/http", "http", false⟩, ⟨"example.com/b", "b2", true⟩]
+
+example : exImps.Perm exImps' := by decide
+example : (exImps.map (·.path)).Nodup := by decide
+example : sortS ["net/http", "example.com/b", "context"] = ["context", "example.com/b", "net/http"] := by decide
+example : frameImports exImps = ["\"context\"", "b2 \"example.com/b\"", "\"net/http\""] := by decide
+example : frameImports exImps' = frameImports exImps := by decide
+
 end WireP.C16
